@@ -10,7 +10,7 @@ ASSUMPTIONS = ["QRegExp is an oracle (pattern, path) -> (match, rest after match
                "sub-handler patterns are start-anchored (documented); request targets are in the C01 class"]
 TRUSTED = ["instrumented Handler/Middleware subclasses log their invocation; SimTcp stands in for TCP"]
 
-SEGS = [b"api", b"a", b"b", b"go", b"x1", b"42", b"files", b"a%20b", b"%0d%0aX-Evil:%20y", b"%2f", b"%25", b"%252", b"%251", b"%E2%82%AC", b"", b".", b"%3f", b"a+b", b"~u"]
+SEGS = [b"api", b"a", b"b", b"go", b"x1", b"42", b"files", b"a%20b", b"%0d%0aX-Evil:%20y", b"%2f", b"%25", b"%252", b"%251", b"%2541", b"g%256F", b"%252F", b"%2561pi", b"a%252Fb", b"%E2%82%AC", b"", b".", b"%3f", b"a+b", b"~u"]
 SUBPATS = [b"^api/", b"^a", b"^(\\w+)/", b"^files/?", b"^go/", b"^", b"^x\\d+", b"^[ab]+/", b"^api", b"^%", b"^nomatch/",
            b"^\\d*", b"^[a-c]*", b"^.*", b"^(x?)"]        # patterns that can match the empty string at the start
 REDIRPATS = [b"^go/(.*)$", b"^old$", b"^(\\w+)/(\\d+)$", b"^a(.)(.)", b"^$", b"(\\d+)", b"^never$", b"^x(\\d)(\\d)?$", b"b$"]
@@ -60,7 +60,10 @@ def build(tier, seed, ctx, refuse_ok, n):
     rng = Rng(seed + (7 if refuse_ok else 0))
     cases = []
     for _ in range(n):
-        tree = rand_node(rng, rng.range(0, 3), [0, 100], refuse_ok) if not rng.chance(1, 40) else []
+        if cases and cases[-1][0] and rng.chance(1, 5):
+            tree = cases[-1][0]          # the SAME tree asked for another path (see the shared-tree histories below)
+        else:
+            tree = rand_node(rng, rng.range(0, 3), [0, 100], refuse_ok) if not rng.chance(1, 40) else []
         segs = [rng.choice(SEGS) for _ in range(rng.range(0, 4))]
         raw = b"/" + b"/".join(segs)
         if raw[1:2] == b"/":
@@ -112,10 +115,30 @@ def build(tier, seed, ctx, refuse_ok, n):
                     nxt.append((i, child, r[1]))
                     break
         frontier = nxt
+    prev = None
     for (tree, raw, path), tab in zip(cases, tables):
+        if prev is not None and prev[0] is tree and tree:
+            # one tree object answering requests for DIFFERENT paths one after the other (captures, prefixes and verdicts differ):
+            # nothing of an earlier request may show in a later answer
+            merged = dict(prev[2]); merged.update(tab)
+            rx2 = [[pat, p, r[0], r[1], r[2]] for (pat, p), r in sorted(merged.items())]
+            order = rng.choice([[0, 1], [0, 1, 0], [1, 0, 1], [0, 0, 1]])
+            conns, metas = [], []
+            for w in order:
+                rw, pt = (prev[1], prev[3]) if w == 0 else (raw, path)
+                ps = rng.below(2)
+                conns.append([G.Construct, G.Feed(b"GET " + rw + b" HTTP/1.1\r\n" + (b"X-Pass: 1\r\n" if ps else b"") + b"\r\n"), G.Turn])
+                metas.append([pt, ps])
+            yield ("srvm", [tree, conns, G.env_for(ver, utab, [prev[1], raw]) + [rx2], [6, metas]], "shared-tree-different-paths")
+        prev = (tree, raw, tab, path)
         rxtab = [[pat, p, r[0], r[1], r[2]] for (pat, p), r in sorted(tab.items())]
         passes = 1 if rng.chance(1, 2) else 0
         head = b"GET " + raw + b" HTTP/1.1\r\nHost: h\r\n" + (b"X-Pass: 1\r\n" if passes else b"") + b"\r\n"
+        if rng.chance(1, 6):
+            # a request that announces a body and withholds it, with a header a server might be tempted to act on by itself
+            hn, hv = rng.choice(G.SEMANTIC)
+            head = (b"POST " + raw + b" HTTP/1.1\r\nHost: h\r\n" + hn + b": " + hv + b"\r\nContent-Length: 5\r\n" +
+                    (b"X-Pass: 1\r\n" if passes else b"") + b"\r\n")
         ops = [G.Construct, G.Feed(head), G.Turn]
         yield ("srv", [tree, ops, G.env_for(ver, utab, [raw]) + [rxtab], [5, path, passes]], "refusing" if refuse_ok else "routing")
         # the same tree serving several connections: the same path again with the other verdict, and other paths
